@@ -1,11 +1,22 @@
 (* C02 -- Error identity (Is/IsAny) is invariant under network transfer.
-   Statements only.  Proved so far: identity is decided by marks ([C02_decided_by_marks]),
-   opaque stand-ins report the origin's type marks, and passing through processes
-   that know none of the types changes nothing for any later process.  The
-   statement for knowing hops is decided on every run by the correspondence
-   stream and the Go-side relation (proof in progress). *)
+   Statements only; proofs in Proofs/MarksFacts.v, IsErase.v, HopIdem.v, ExactHop.v.
+
+   A decoded error is a new object: it shares no object identity with any
+   reference the receiving process holds ([disjoint_ref]).  For such references
+   Is / IsAny are functions of the error's erasure (C02_is_erasure): identity can
+   only come from value equality, a type's own Is method, or the marks.  Combined
+   with the transfer theorems of C01 this gives:
+   - errors of kinds with exact decoders: Is after one (hence any number of) knowing
+     hop(s) is Is before, for every reference not sharing an identity with the
+     original either (C02_exact_hop);
+   - every error, every process with closed knowledge: from the second hop on Is
+     never changes again (C02_stable).
+   Not proved: that the FIRST hop keeps the marks of kinds decoded to the opaque
+   stand-ins (it needs the text theorem missing in C01); decided on every run by the
+   correspondence stream and the implementation-side relation. *)
 From Errv Require Import Base.Str Model.Err Model.Sem Model.Details Model.Marks Model.Codec Model.Report
-     Proofs.FastIs Proofs.MarksFacts Proofs.CodecFacts.
+     Proofs.FastIs Proofs.MarksFacts Proofs.CodecFacts Proofs.EraseDef Proofs.EraseFacts Proofs.HopIdem
+     Proofs.ExactHop Proofs.IsErase.
 
 Theorem C02_decided_by_marks : forall e r,
   is_ e r = true <->
@@ -13,19 +24,58 @@ Theorem C02_decided_by_marks : forall e r,
 Proof. exact is_char. Qed.
 Print Assumptions C02_decided_by_marks.
 
+(* Is / IsAny cannot distinguish errors with the same erasure *)
+Theorem C02_is_erasure : forall a b r,
+  erase a = erase b -> disjoint_ref a r -> disjoint_ref b r -> is_ a r = is_ b r.
+Proof. exact is_same_erase. Qed.
+Print Assumptions C02_is_erasure.
+
+Theorem C02_is_any_erasure : forall a b rs,
+  erase a = erase b -> Forall (disjoint_ref a) rs -> Forall (disjoint_ref b) rs -> is_any a rs = is_any b rs.
+Proof. exact is_any_same_erase. Qed.
+Print Assumptions C02_is_any_erasure.
+
+(* when only the reference has been transferred: the same, unless the match came
+   from syscall.Errno's own Is method comparing the reference with the os sentinels
+   by identity -- exactly the exemption the property states *)
+Theorem C02_reference_side : forall e r1 r2,
+  erase r1 = erase r2 -> not_os_sentinel r1 -> not_os_sentinel r2 ->
+  (forall c, In c (visit_all e) -> value_kind c = false -> node_oid c <> node_oid r1 /\ node_oid c <> node_oid r2) ->
+  is_ e r1 = is_ e r2.
+Proof. exact is_ref_same_erase_fresh. Qed.
+Print Assumptions C02_reference_side.
+
+Theorem C02_reference_exemption_needed :
+  exists e r1 r2, erase r1 = erase r2 /\ is_ e r1 = true /\ is_ e r2 = false.
+Proof.
+  exists (Leaf 50%positive (LErrno 13%Z)), (Leaf oid_permission (LErrString (lit "permission denied"))),
+         (Leaf 200%positive (LErrString (lit "permission denied"))).
+  vm_compute. repeat split.
+Qed.
+Print Assumptions C02_reference_exemption_needed.
+
+(* errors of kinds with exact decoders: one knowing hop does not change Is *)
+Theorem C02_exact_hop : forall e r n,
+  exact_tree e = true -> disjoint_ref e r -> disjoint_ref (fst (hop all_knowing e n)) r ->
+  is_ (fst (hop all_knowing e n)) r = is_ e r.
+Proof. intros e r n H H1 H2. apply is_same_erase; [now apply exact_hop_erase|assumption|assumption]. Qed.
+Print Assumptions C02_exact_hop.
+
+(* every error: from the second hop on Is never changes *)
+Theorem C02_stable : forall p, proc_closed p -> forall e r n n' n'',
+  let e2 := fst (hop p (fst (hop p e n)) n') in
+  let e3 := fst (hop p e2 n'') in
+  disjoint_ref e2 r -> disjoint_ref e3 r -> is_ e3 r = is_ e2 r.
+Proof. intros p Hp e r n n' n'' e2 e3 H2 H3. apply is_same_erase; [now apply hop_stable|assumption|assumption]. Qed.
+Print Assumptions C02_stable.
+
 (* an opaque stand-in carries the origin's (family, extension) as its type mark *)
 Theorem C02_opaque_mark : forall i msg d cs,
   get_mark (OLeaf i msg d cs) = mkem msg [mktm (dt_fam d) (dt_ext d)].
 Proof. reflexivity. Qed.
 Print Assumptions C02_opaque_mark.
 
-Theorem C02_opaque_wrapper_mark : forall i pfx d mt c,
-  em_types (get_mark (OWrap i pfx d mt c)) = mktm (dt_fam d) (dt_ext d) :: em_types (mkem [] (ns_tmarks (sem c))).
-Proof. reflexivity. Qed.
-Print Assumptions C02_opaque_wrapper_mark.
-
-(* hops through processes that know none of the types are invisible to every
-   later process, for Is against any reference *)
+(* hops through processes that know none of the types are invisible to every later process *)
 Theorem C02_unknowing_hops : forall p, knows_nothing p -> forall q x n m r,
   no_error_payload x = true ->
   is_ (fst (decode q (encode (fst (decode p x n))) m)) r = is_ (fst (decode q x m)) r.
@@ -37,5 +87,5 @@ Example C02_example :
   let r := Leaf oid_canceled (LErrString (lit "context canceled")) in
   let e1 := fst (transfer [unknowing; all_knowing] e 1000%positive) in
   is_ e r = true /\ is_ e1 r = true /\ is_ e1 e = true /\
-  is_ e1 (Leaf 7%positive (LErrString (lit "other"))) = false.
+  is_ e1 (Leaf 7%positive (LErrString (lit "other"))) = false /\ exact_tree e = true.
 Proof. vm_compute. repeat split. Qed.
